@@ -18,6 +18,9 @@ type ArchSpec struct {
 	Threaded             int
 	WordSize             uint8
 	Shared               string
+	// KeepOrder: the opcode list keeps the order of Ops (a machine JSON keeps file order on load); default: sorted by
+	// name, as every front end does
+	KeepOrder bool `json:"keep_order,omitempty"`
 }
 
 // OpByName returns the registered static opcode, or creates a dynamic one.
@@ -63,7 +66,9 @@ func NewMachine(s ArchSpec) (*procbuilder.Machine, error) {
 		}
 		ops = append(ops, op)
 	}
-	sort.Sort(procbuilder.ByName(ops))
+	if !s.KeepOrder {
+		sort.Sort(procbuilder.ByName(ops))
+	}
 	a.Op = ops
 	return m, nil
 }
